@@ -10,7 +10,7 @@ CLAIMS = {
     technique="Lean 4 theorems (induction over blocks, omega) + enc-stream correspondence (real bytes decoded by the Lean spec decoder) + direct round-trip oracle",
     ref="7/C01"),
   "C02": dict(
-    text="Lean 4: constants/field widths/flag layout/dtype table extracted from /repo equal the frozen ones (decide), header round trip and size for every dtype and flag combination. Tie: every emitted byte stream is decoded by the independent Lean decoder (frozen grammar) exactly to its last byte, flags/metadata/numbers compared with what was compressed and with the returned ChunkMetadata, and the spec encoder reproduces the bytes bit for bit; the 8 shipped asset files decode to their .bin values under the frozen grammar. Layer W (C02w): a statement-level Lean model of trained_compress_chunk_nums (CompressionTable::from_sorted/search, compress_nums, compress_offset_bits_w_prefix over the word-level BitWriter model) is PROVED to emit exactly encBody of the greedy blocks for every table of disjoint ranges with counts >= 1 and every input, and InvalidArgument exactly when a number is uncovered (search = findPrefix; from_sorted terminates: no child gets the whole slice; with a zero count it diverges - proved, unreachable from training); tied to the real function through a guarded hook (bodywrite stream).",
+    text="Lean 4: constants/field widths/flag layout/dtype table extracted from /repo equal the frozen ones (decide), header round trip and size for every dtype and flag combination. Tie: every emitted byte stream is decoded by the independent Lean decoder (frozen grammar) exactly to its last byte, flags/metadata/numbers compared with what was compressed and with the returned ChunkMetadata, and the spec encoder reproduces the bytes bit for bit; the 8 shipped asset files decode to their .bin values under the frozen grammar. Layer W (C02w): a statement-level Lean model of trained_compress_chunk_nums (CompressionTable::from_sorted/search, compress_nums, compress_offset_bits_w_prefix over the word-level BitWriter model) is PROVED to emit exactly encBody of the greedy blocks for every table of disjoint ranges with counts >= 1 and every input, and InvalidArgument exactly when a number is uncovered (search = findPrefix; from_sorted terminates: no child gets the whole slice; with a zero count it diverges - proved, unreachable from training); tied to the real function through a guarded hook (bodywrite stream). Layer M (C02m): statement-level Lean models of ChunkMetadata::parse_from/write_to, parse_prefixes/write_prefixes, read_gcd/write_gcd, DeltaMoments and Flags::parse_from/try_from/write over the word-level reader/writer are PROVED equal to the spec decChunkMeta/encChunkMeta/decFlags/encFlags including error kinds, never to panic on any bytes, and to round-trip; findings proved on the way (write_usize truncates oversized fields silently, Flags::write of all-false flags writes zero bytes, common_gcd_for_chunk_meta never shares a divisor between two multi-valued ranges) are unreachable or size-only.",
     note="The Lean decoder is the independent decoder; it is trusted as the statement of the format (validated against assets written by 0.4-0.10). GCD field width uses hardware floats in the driver only.",
     technique="Lean 4 spec of the format + decide against regenerated constants + enc-stream correspondence",
     ref="7/C02"),
@@ -70,8 +70,8 @@ CLAIMS = {
     technique="Lean 4 theorems on the chooser model + auto-stream correspondence",
     ref="7/C13"),
   "C14": dict(
-    text="Lean 4: exact/upper bounds of every encoder piece for every well-formed file: offset <= k+1 <= W bits, varint <= 48 bits, file overhead 7 bytes, count field <= 24 bits, prefix metadata <= 67+3W bits, chunk metadata bound, Kraft feasibility of the reference code (length W-k) for pairwise disjoint ranges. Huffman optimality IS proved (Lemmas/HuffmanKraft, HuffmanOpt): an executable model of make_huffman_code plus a relational one allowing any heap tie-breaking; every run of the loop has the same cost huffCost ws, the codes are a complete prefix-free tree, and that cost is minimal among Kraft-feasible lengths / prefix-free codes. Hence C14h.body_bound: for a table without run-length prefix, disjoint ranges inside [0,2^W), truthful counts and codes costing Huffman's cost, the body takes <= n(W+1)+7 bits. Tie: the hypotheses are evaluated on every emitted chunk (disj, counts, huffopt: sum count*len == huffCostW weights) and the exact body/metadata bits computed by the model from the observed table (equal to real sizes since the spec re-encoding reproduces the bytes) are compared with the stated bounds on adversarial distributions. Known finding: bool delta moments take a byte each.",
-    note="partial only for chunks WITH a run-length prefix (its Huffman weight is an f64 estimate of the number of runs; the theorem covers single blocks): there the bound is evaluated per instance. That the real make_huffman_code is an instance of the relational loop is tied per chunk by the cost equality, not by proof about the Rust BinaryHeap.",
+    text="Lean 4: exact/upper bounds of every encoder piece for every well-formed file: offset <= k+1 <= W bits, varint <= 48 bits, file overhead 7 bytes, count field <= 24 bits, prefix metadata <= 67+3W bits, chunk metadata bound, Kraft feasibility of the reference code (length W-k) for pairwise disjoint ranges. Huffman optimality IS proved (Lemmas/HuffmanKraft, HuffmanOpt): an executable model of make_huffman_code plus a relational one allowing any heap tie-breaking; every run of the loop has the same cost huffCost ws, the codes are a complete prefix-free tree, and that cost is minimal among Kraft-feasible lengths / prefix-free codes; a symbol weighing more than half of the others gets a code of <= 2 bits in every run (HuffmanHeavy). Hence C14h.body_bound: for a table without run-length prefix, disjoint ranges inside [0,2^W), truthful counts and codes costing Huffman's cost, the body takes <= n(W+1)+7 bits; and C18s.c14_sparse: for a table with a single-valued run-length prefix (any weight E with others < 2E) the body takes <= n(W+4) bits for W >= 9 (n(W+5) for W = 8). Tie: the hypotheses are evaluated on every emitted chunk (disj, counts, huffopt: sum weight*len == huffCostW weights, jlen, heavy) and the exact body/metadata bits computed by the model from the observed table (equal to real sizes since the spec re-encoding reproduces the bytes) are compared with the stated bounds on adversarial distributions; when a tie breaks, bulk+cluster inputs are searched for a concrete size violation. Known finding: bool delta moments take a byte each.",
+    note="That the real make_huffman_code is an instance of the relational loop is tied per chunk by the cost equality, not by proof about Rust's BinaryHeap; the f64 weight of the run-length prefix is not modelled (any E works in the theorem; the check admits ceil(f(1-f)n)+-1). Not covered by a theorem: multi-valued run-length ranges, bool (W = 1) with run-length: evaluated per instance.",
     technique="Lean 4 size theorems + Huffman optimality proof + per-chunk hypothesis evaluation on the enc stream",
     ref="7/C14"),
   "C15": dict(
@@ -85,8 +85,8 @@ CLAIMS = {
     technique="Lean 4 glue theorems + differential runs of the real CLI binary",
     ref="7/C17"),
   "C18": dict(
-    text="Lean 4 (26 theorems): exactGcd is the greatest common divisor of the members' distances (divides, greatest), meaning of the evaluated gcdExact predicate incl. the escape to 1 only when the exact divisor does not fit the field and no common field is used, offsets recover members exactly; streaming delta reconstruction inverts n-th order wrapping differences for every order (incl. bool/xor), vanishing differences => all coded numbers equal => single empty-code prefix => zero body bits for any n; greedy runs are maximal, a run block on a single-valued range costs code + varint <= code + 48 bits for any length, the 90%/2000 premises imply the library's 80%/1001 run-length rule. Tie: enc stream on lattices (divisors near 2^49), sparse chunks (premises met in 40+ cases per run), vanishing-difference sequences for every dtype and order.",
-    note="partial for (2): the aggregate (W+8)*others+52*runs bound is evaluated per instance (it depends on Huffman code lengths); merge-stage GCD folding is checked per instance by gcdExact, not proved for the real merge code.",
+    text="Lean 4 (26 theorems): exactGcd is the greatest common divisor of the members' distances (divides, greatest), meaning of the evaluated gcdExact predicate incl. the escape to 1 only when the exact divisor does not fit the field and no common field is used, offsets recover members exactly; streaming delta reconstruction inverts n-th order wrapping differences for every order (incl. bool/xor), vanishing differences => all coded numbers equal => single empty-code prefix => zero body bits for any n; greedy runs are maximal, a run block on a single-valued range costs code + varint <= code + 48 bits for any length, the 90%/2000 premises imply the library's 80%/1001 run-length rule. Added: C18s.c18_sparse - the aggregate bound of part (2) is now a THEOREM: for a table with a single-valued run-length prefix, disjoint ranges, truthful counts, codes costing Huffman's cost for the weights with any weight E of the run-length prefix whose code has 1..2 bits (forced by HuffCode.heavy_length_le_two whenever others < 2E), the body takes <= (W+8)*others + 52*runs bits (sparse_of_greedy: the greedy blocks have that shape and runs <= others+1); C18g - the literal pair_gcd / gcd(sorted) / fold_prefix_gcds_left / common_gcd_for_chunk_meta / use_gcd_* loops proved equal to Nat.gcd and to the training model's functions (gcdSorted_exact: the value returned for a sorted multi-valued slice is exactly the GCD of the distances; train_fold_no_panic: pair_gcd's b > 0 precondition holds at both call sites for every trained table). Tie: enc stream on lattices (divisors near 2^49), sparse chunks (premises met in 40+ cases per run), vanishing-difference sequences for every dtype and order.",
+    note="The hypotheses of c18_sparse are evaluated per chunk (huffopt, jlen, heavy, disj, counts) besides the exact sizes; the f64 estimate of the run-length prefix's weight is not modelled (any E with others < 2E works). Which groups the merge stage folds is decided by f64 costs (oracle); what a folded group's divisor is, is proved (C10t, C18g) and checked per instance by gcdExact/explains.",
     technique="Lean 4 theorems (gcd folds, delta integration, run blocks) + enc-stream evaluation",
     ref="7/C18"),
   "C12": dict(
